@@ -264,6 +264,18 @@ pub fn with_id(o: &OrderType<()>, new_id: OrderId) -> OrderType<()> {
     n
 }
 
+/// Identity of an id as the harness sees it: format variant + the 128 bits. Deliberately not
+/// the library's own `PartialEq` / `Hash` for `OrderId` (a change to those must not change what
+/// the generators and the model consider "the same id").
+pub type IdKey = (u8, u128);
+
+pub fn id_key(id: OrderId) -> IdKey {
+    match id {
+        OrderId::Uuid(u) => (0, u.as_u128()),
+        OrderId::Ulid(l) => (1, u128::from(l)),
+    }
+}
+
 /// Short readable form of an id: `u<n>` for `OrderId::from_u64(n)`, otherwise head..tail.
 pub fn short_id(id: OrderId) -> String {
     match id {
